@@ -2,28 +2,727 @@
 from __future__ import annotations
 
 import copy
+import itertools
 from fractions import Fraction
 
-from .. import gen1, gennd
+import numpy as np
+
+from .. import gen1, gennd, implnd
 from ..core import rs
+from ..impl1 import REFUSED, Store, arr, fl, mk_binning
+from ..sharing import sharing as _sharing
 from .basen import HistNProp
+
+# --------------------------------------------------------------------------------------------- switches of the newer streams
+ENABLE_SAME_EDGES = True        # axes with element-wise identical bins whose per-axis options (right edge, adaptivity) differ
+ENABLE_PER_AXIS_ARGS = True     # per-axis lists of arguments (method names, bin_count, bin_width, range, q ...) on equal extents
+ENABLE_LAYOUT = True            # memory layouts of the row-wise input x every binning method name; the input stays untouched
+SHARE_SAME_EDGES, SHARE_PER_AXIS_ARGS, SHARE_LAYOUT = 0.14, 0.10, 0.15
+
+# every method name the N-d facade accepts (physt.binnings.binning_methods + bincount_methods); 'static' needs a `bins=`
+# keyword that collides with the facade's own parameter and is reachable through arrays of edges only
+METHODS_ANY_DATA = ["numpy", "quantile", "fixed_width", "integer", "pretty", "human", "blocks", "scott", "freedman", "knuth",
+                    "default", "sturges", "rice", "sqrt", "doane"]
+METHODS_POSITIVE = ["exponential"]
+# calls whose acceptance the generator vouches for (n >= 2 values, a proper extent); the others may legitimately be refused
+# (quantiles of tied data, an optional dependency of astropy missing, a degenerate width rule): not pinned by this property
+METHODS_CONFIDENT = {"numpy", "fixed_width", "integer", "default", "sturges", "rice", "sqrt"}
+
+LAYOUTS_COLUMN_CONTIGUOUS = ["F", "T", "Frows"]                      # every column is one contiguous run of memory
+LAYOUTS_OTHER = ["C", "rowstep", "colslice", "rev", "Frev", "colrev"]
+PAD = 12345.0
+
+
+# ----------------------------------------------------------------------------- the extended `construct` op on the real library
+def enc(v):
+    """keyword value -> JSON: bool / None as they are, {"i": int}, {"f": rational}, {"t": [rationals]} for a tuple of floats,
+    {"axes": [...]} for a per-axis list (a Python list in the call)"""
+    if v is None or isinstance(v, bool):
+        return v
+    if isinstance(v, int):
+        return {"i": v}
+    if isinstance(v, float):
+        return {"f": rs(v)}
+    if isinstance(v, tuple):
+        return {"t": [rs(float(x)) for x in v]}
+    if isinstance(v, list):
+        return {"axes": [enc(x) for x in v]}
+    raise TypeError(v)
+
+
+def dec(j):
+    if j is None or isinstance(j, bool):
+        return j
+    if "i" in j:
+        return int(j["i"])
+    if "f" in j:
+        return fl(j["f"])
+    if "t" in j:
+        return tuple(fl(x) for x in j["t"])
+    if "axes" in j:
+        return [dec(x) for x in j["axes"]]
+    raise TypeError(j)
+
+
+def mk_item(j):
+    """one `bins` entry of the facade call"""
+    k = j["k"]
+    if k == "name":
+        return j["s"]
+    if k == "int":
+        return int(j["n"])
+    if k == "edges":
+        return np.array([fl(x) for x in j["e"]])
+    if k == "pairs":
+        return np.array([[fl(l), fl(r)] for l, r in j["p"]])
+    if k == "obj":
+        return mk_binning(j["b"])
+    if k == "none":
+        return None
+    raise ValueError(k)
+
+
+def lay_out(a: np.ndarray, lay: dict):
+    """(array handed to physt, array owning the memory) holding exactly the values of the C-ordered float array `a`"""
+    kind = lay.get("k", "C")
+    dt = np.dtype(lay.get("dtype", "float64"))
+    src = a.astype(dt)
+    n, d = src.shape
+    if kind == "C":
+        base = np.ascontiguousarray(src); v = base
+    elif kind == "F":
+        base = np.asfortranarray(src); v = base
+    elif kind == "T":                       # np.array([x, y, z]).T
+        base = np.ascontiguousarray(src.T); v = base.T
+    elif kind == "rowstep":                 # every second row of a larger table
+        base = np.full((2 * n + 1, d), PAD, dtype=dt); base[1::2] = src; v = base[1::2]
+    elif kind == "colslice":                # some columns of a wider table
+        base = np.full((n, d + 2), PAD, dtype=dt); base[:, 1:d + 1] = src; v = base[:, 1:d + 1]
+    elif kind == "Frows":                   # some rows of a column-major table: each column still one contiguous run
+        base = np.full((n + 2, d), PAD, dtype=dt, order="F"); base[1:n + 1] = src; v = base[1:n + 1]
+    elif kind == "rev":
+        base = np.ascontiguousarray(src[::-1]); v = base[::-1]
+    elif kind == "Frev":
+        base = np.asfortranarray(src[::-1]); v = base[::-1]
+    elif kind == "colrev":
+        base = np.ascontiguousarray(src[:, ::-1]); v = base[:, ::-1]
+    else:
+        raise ValueError(kind)
+    if lay.get("ro"):
+        v.flags.writeable = False
+        base.flags.writeable = False
+    if not (v.shape == a.shape and np.array_equal(v.astype(float), a, equal_nan=True)):
+        raise AssertionError(f"layout {lay} does not hold the rows (generator bug)")
+    return v, base
+
+
+def lay_out_1d(w: np.ndarray, lay: dict):
+    kind = lay.get("k", "C")
+    n = len(w)
+    if kind == "C":
+        base = w.copy(); v = base
+    elif kind == "step":
+        base = np.full(2 * n + 1, 99, dtype=w.dtype); base[1::2] = w; v = base[1::2]
+    elif kind == "rev":
+        base = np.ascontiguousarray(w[::-1]); v = base[::-1]
+    else:
+        raise ValueError(kind)
+    if lay.get("ro"):
+        v.flags.writeable = False
+        base.flags.writeable = False
+    if not (v.shape == w.shape and np.array_equal(v, w)):
+        raise AssertionError(f"weight layout {lay} does not hold the weights (generator bug)")
+    return v, base
+
+
+def _state(x):
+    """what must be bit-for-bit the same after the call: memory, geometry and type of an array handed to physt"""
+    if x is None:
+        return None
+    if isinstance(x, list):
+        return repr(x)
+    return (x.tobytes(), x.shape, x.strides, x.dtype.str)
+
+
+def snap_ext(x) -> dict:
+    s = implnd.snapn(x)
+    bs = list(x.binnings)
+    s["_ire"] = [bool(b.includes_right_edge) for b in bs]               # the right-edge declaration of each axis (public)
+    s["_adaptive_axes"] = [bool(b.is_adaptive()) for b in bs]
+    s["_binning_classes"] = [type(b).__name__ for b in bs]
+    return s
+
+
+def run_construct(op: dict, log: list) -> dict:
+    """`construct` of implnd, extended by (a) `call`: the bins argument and the keywords of the facade call as they are (method
+    names, ints, arrays of edges, objects, per-axis lists of keywords), (b) `layout` / `wlayout`: the memory layout of the
+    row-wise array / of the weights; afterwards the arrays handed over are compared with their state before the call."""
+    from physt import h, h2, h3
+    s = Store()
+    call = op.get("call")
+    d = int(op["d"]) if "d" in op else len(op["axes"])
+    data = implnd.rows_arr(op["rows"], d)
+    entry = op.get("entry", "h")
+    v, base = lay_out(data, op.get("layout") or {})
+    given = v
+    if entry == "list":
+        given = v.tolist() if len(v) else v
+    w = wbase = None
+    if op.get("weights") is not None:
+        w, wbase = lay_out_1d(arr(op["weights"], np.dtype(op.get("wkind") or "float64")), op.get("wlayout") or {})
+    before = (_state(base), _state(v), _state(given) if isinstance(given, list) else None, _state(wbase), _state(w))
+    try:
+        kw = {"dropna": op.get("dropna", True)}
+        if op.get("names") is not None:
+            kw["axis_names"] = op["names"]
+        if call is None:
+            bins = [mk_binning(b) for b in op["axes"]]
+        else:
+            jb = call["bins"]
+            bins = [mk_item(x) for x in jb["axes"]] if "axes" in jb else mk_item(jb)
+            for k, val in (call.get("kw") or {}).items():
+                kw[k] = dec(val)
+        if entry == "h2" and d == 2:
+            r = h2(v[:, 0], v[:, 1], bins, weights=w, **kw)
+        elif entry == "h3" and d == 3:
+            r = h3(v, bins, weights=w, **kw)
+        elif entry == "h3cols" and d == 3:
+            r = h3([v[:, 0], v[:, 1], v[:, 2]], bins, weights=w, **kw)
+        else:
+            r = h(given, bins, weights=w, **kw)
+        s.set(op["out"], r)
+        ret = "ok"
+    except Exception as e:
+        log.append(f"construct: {type(e).__name__}: {e}"[:200])
+        ret = REFUSED
+    after = (_state(base), _state(v), _state(given) if isinstance(given, list) else None, _state(wbase), _state(w))
+    inp = {"data_intact": before[:3] == after[:3], "weights_intact": before[3:] == after[3:]}
+    if not inp["data_intact"]:
+        inp["rows_after"] = [[None if x != x else rs(float(x)) for x in row] for row in np.asarray(v, dtype=float).tolist()]
+    if not inp["weights_intact"]:
+        inp["weights_after"] = [None if x != x else rs(float(x)) for x in np.asarray(w, dtype=float).tolist()]
+    return {"ret": ret, "regs": [None if x is None else snap_ext(x) for x in s.regs], "_sharing": _sharing(s.regs), "_input": inp}
+
+
+# --------------------------------------------------------------------------------------------------------- generator helpers
+def _spec_ire(b):
+    return b.get("ire", True) if b["t"] == "static" else b.get("ire", False)
+
+
+def _spec_pairs(b):
+    """bins of a binning JSON as Fractions (static: as listed; fixed: (tmin + i) * w + shift, exact for the dyadic widths used)"""
+    if b["t"] == "static":
+        return [(Fraction(l), Fraction(r)) for l, r in b["bins"]]
+    w, sh = Fraction(b["w"]), Fraction(b["shift"])
+    return [((b["tmin"] + i) * w + sh, (b["tmin"] + i + 1) * w + sh) for i in range(b["count"])]
+
+
+def _inside(rng, pairs):
+    a, b = rng.choice(pairs)
+    return a + (b - a) * rng.choice([0.25, 0.5, 0.75])
+
+
+def rows_on_edges(rng, axes_pairs, n, nan_share=0.04):
+    """rows whose coordinates sit on the LAST edge of their axis (and one ulp beside it) often, on every axis alike; plus, for
+    every axis in turn, rows that are inside the bins on all other axes and exactly on / beside the last edge of that one"""
+    d = len(axes_pairs)
+    rows = []
+    for _ in range(n):
+        row = []
+        for p in axes_pairs:
+            edges = sorted({x for q in p for x in q})
+            last = p[-1][1]
+            r = rng.random()
+            if r < nan_share / d:
+                row.append(gen1.NAN)
+            elif r < 0.28:
+                row.append(last)
+            elif r < 0.36:
+                row.append(gen1.nxt(last, rng.random() < 0.5))
+            elif r < 0.46:
+                row.append(rng.choice(edges))
+            elif r < 0.51:
+                row.append(gen1.nxt(rng.choice(edges), rng.random() < 0.5))
+            elif r < 0.90:
+                row.append(_inside(rng, p))
+            else:
+                span = (edges[-1] - edges[0]) or 1.0
+                row.append(rng.choice([edges[0] - span, last + span, edges[0] - 0.25, last + 0.25]))
+        rows.append(row)
+    for a in range(d):
+        if rng.random() < 0.75:
+            last = axes_pairs[a][-1][1]
+            for x in [last] + ([gen1.nxt(last, False)] if rng.random() < 0.4 else []) + ([gen1.nxt(last, True)] if rng.random() < 0.3 else []):
+                rows.append([x if i == a else _inside(rng, axes_pairs[i]) for i in range(d)])
+    rng.shuffle(rows)
+    return rows
+
+
+def _names_entry(rng, d):
+    entry = rng.choice(["h", "h", "h"] + (["h2"] if d == 2 else []) + (["h3", "h3", "h3cols"] if d == 3 else []))
+    names = None
+    if rng.random() < 0.3 or entry in ("h2", "h3cols"):
+        names = [f"n{i}" for i in range(d)]
+    return entry, names
+
+
+def _weights(rng, n, op, tags):
+    ws, wk = gen1.weights_for(rng, n, kinds=["none", "none", "int", "dyadic", "equal", "zeros"])
+    op["weights"] = None if ws is None else [rs(w) for w in ws]
+    op["wkind"] = wk
+    if ws is not None:
+        tags.append("weighted")
+
+
+def _last_edge_tags(axes_pairs, rows):
+    out = []
+    for a, p in enumerate(axes_pairs):
+        if any(r[a] is not None and r[a] == p[-1][1] for r in rows):
+            out.append(f"on_last_edge:axis{a}")
+    return out
+
+
+def gen_same_edges(rng):
+    """axes sharing element-wise identical bins (same class) whose right-edge declaration / adaptivity differ per axis"""
+    d = rng.choice([2, 2, 3, 3, 4])
+    kind = rng.choice(["static", "static", "numpy", "fixed", "fixed"])
+    maxbins = 4 if d < 4 else 3
+    tags = ["stream:same_edges", "d:%d" % d, "shared:" + kind]
+    if kind == "fixed":
+        w = rng.choice([1.0, 0.5, 0.25, 2.0])
+        tmin, cnt = rng.randint(-3, 3), rng.randint(1, maxbins)
+        pairs = [[(tmin + i) * w, (tmin + i + 1) * w] for i in range(cnt)]
+    else:
+        pairs, _ = gen1.rising_bins(rng, allow_gaps=(kind == "static"))
+        pairs = pairs[:maxbins]
+    consecutive = gen1.is_consecutive_exact(pairs)
+    shared = list(range(d))
+    if d > 2 and rng.random() < 0.3:
+        shared = sorted(rng.sample(range(d), rng.randint(2, d - 1)))
+    # flags: both declarations occur among the sharing axes (mostly); which axis is the closed one varies
+    flags = {a: rng.random() < 0.5 for a in shared}
+    if rng.random() < 0.85 and len(set(flags.values())) == 1:
+        flags[rng.choice(shared)] = not flags[shared[0]]
+    if len(set(flags.values())) > 1:
+        tags.append("flags_differ")
+    adaptive = {a: False for a in shared}
+    if kind == "fixed" and rng.random() < 0.5:
+        for a in shared:
+            adaptive[a] = (not flags[a]) and rng.random() < 0.6       # adaptivity and a closed right edge exclude each other
+        if any(adaptive.values()):
+            tags.append("adaptive_differs" if len(set(adaptive.values())) > 1 else "adaptive_all")
+    others = {a: gennd.axis_binning(rng, maxbins=maxbins) for a in range(d) if a not in shared}
+
+    def spec(a):
+        if a not in flags:
+            return others[a][0]
+        if kind == "fixed":
+            return gen1.fixed_json(w, tmin, cnt, 0.0, adaptive=adaptive[a], ire=flags[a])
+        return gen1.binning_json(pairs, ire=flags[a], form="numpy_obj" if kind == "numpy" else "static_obj")
+    axes = [spec(a) for a in range(d)]
+    axes_pairs = [pairs if a in flags else others[a][1] for a in range(d)]
+    forms = ["objs", "objs"]
+    if kind == "static":
+        forms += ["kw_list", "kw_list"] + (["kw_single"] if len(shared) == d else [])
+    if kind == "fixed":
+        forms += ["fixed_kw", "fixed_kw", "fixed_kw"]
+    form = rng.choice(forms)
+    tags.append("form:" + form)
+    n = rng.choice([0, 1, 2, 4, 8, 15])
+    rows = rows_on_edges(rng, axes_pairs, n)
+    entry, names = _names_entry(rng, d)
+    op = {"op": "construct", "out": 0, "d": d, "axes": axes, "rows": gennd.enc_rows(rows), "names": names, "entry": entry}
+    _weights(rng, len(rows), op, tags)
+    if form != "objs":
+        item = ({"k": "edges", "e": [rs(pairs[0][0])] + [rs(p[1]) for p in pairs]} if (consecutive and rng.random() < 0.6)
+                else {"k": "pairs", "p": [[rs(l), rs(r)] for l, r in pairs]})
+        kw = {}
+        if form == "kw_single":
+            bins = item
+            kw["includes_right_edge"] = enc([flags[a] for a in range(d)])
+        elif form == "kw_list":
+            bins = {"axes": [item if a in flags else {"k": "obj", "b": axes[a]} for a in range(d)]}
+            kw["includes_right_edge"] = enc([flags.get(a) for a in range(d)])
+        else:                                                           # 'fixed_width' by name, equal range on the sharing axes
+            name = {"k": "name", "s": "fixed_width"}
+            if len(shared) == d and rng.random() < 0.5:
+                bins = name
+            else:
+                bins = {"axes": [name if a in flags else {"k": "obj", "b": axes[a]} for a in range(d)]}
+            rg = (pairs[0][0], pairs[-1][1])
+            per_axis = lambda val: [val if a in flags else None for a in range(d)]
+            kw["bin_width"] = enc(w if (len(shared) == d and rng.random() < 0.5) else per_axis(w))
+            kw["range"] = enc(rg if (len(shared) == d and rng.random() < 0.5) else per_axis(rg))
+            kw["includes_right_edge"] = enc([flags.get(a) for a in range(d)])
+            if any(adaptive.values()):
+                kw["adaptive"] = enc([adaptive.get(a, False) for a in range(d)])
+                # an adaptive axis given a range grows to the data as well: its bins are the facade's business (C04 / C07)
+                op["axes"] = [None if adaptive.get(a) else axes[a] for a in range(d)]
+        op["call"] = {"bins": bins, "kw": kw}
+    op["expect"] = "ok"
+    tags += _last_edge_tags(axes_pairs, rows)
+    return {"kind": "histn", "ops": [op], "tags": tags}
+
+
+def _column(rng, n, lo, step, m, ties=False):
+    """n values on the grid lo + k * step (k = 0..m), both ends present (so all columns have the same extent); distinct values
+    unless `ties`"""
+    ks = list(range(m + 1))
+    if n <= 1:
+        return [lo + rng.choice(ks) * step for _ in range(n)]
+    if ties or m + 1 < n:
+        col = [0, m] + [rng.choice(ks) for _ in range(n - 2)]
+    else:
+        col = [0, m] + rng.sample(ks[1:-1], n - 2)
+    rng.shuffle(col)
+    return [lo + k * step for k in col]
+
+
+def _method_item(rng, name, lo, hi, tight=False):
+    """(bins item, keywords of that axis, tag)"""
+    kw = {}
+    span = hi - lo
+    rg = rng.choice([None, None, (lo, hi), (lo, lo + span / 2), (lo - 1.0, hi + 1.0)])
+    if name == "int":
+        if rg is not None:
+            kw["range"] = rg
+        return {"k": "int", "n": rng.randint(1, 4)}, kw, "int"
+    if name == "edges":
+        k = rng.randint(1, 3)
+        e = [lo + span * i / k for i in range(k + 1)] if rng.random() < 0.7 else [lo + span / 4, lo + span / 2, hi]
+        kw["includes_right_edge"] = rng.random() < 0.5
+        return {"k": "edges", "e": [rs(x) for x in e]}, kw, "edges"
+    if name == "numpy":
+        kw["bin_count"] = rng.randint(1, 4)
+        if rg is not None:
+            kw["range"] = rg
+    elif name == "quantile":
+        r = rng.random()
+        if r < 0.5:
+            kw["bin_count"] = rng.randint(1, 3)
+            if rng.random() < 0.2:
+                kw["qrange"] = rng.choice([(0.25, 0.75), (0.0, 0.5), (0.5, 1.0)])
+        else:
+            kw["q"] = rng.choice([(0.0, 0.5, 1.0), (0.0, 0.25, 0.75, 1.0), (0.25, 0.75), (0.0, 1.0), (0.125, 0.5, 1.0)])
+    elif name == "fixed_width":
+        kw["bin_width"] = rng.choice([span / 2, span / 4, span])
+        if rg is not None:
+            kw["range"] = rg
+        if rng.random() < 0.5:
+            kw["includes_right_edge"] = rng.random() < 0.5
+        if not kw.get("includes_right_edge") and rng.random() < 0.25:
+            kw["adaptive"] = True
+    elif name == "integer":
+        if rng.random() < 0.3:
+            kw["bin_width"] = 2
+        if rg is not None and rng.random() < 0.5:
+            kw["range"] = (float(int(lo)), float(int(hi)) + 1.0)
+    elif name in ("pretty", "human"):
+        if tight or rng.random() < 0.7:
+            kw["bin_count"] = rng.randint(2, 3 if tight else 5)
+        if rg is not None:
+            kw["range"] = rg
+    elif name == "exponential":
+        kw["bin_count"] = rng.randint(1, 4)
+        if rg is not None and rg[0] > 0:
+            kw["range"] = rg
+    elif name in ("default", "sturges", "rice", "sqrt", "doane", "blocks", "scott", "freedman", "knuth"):
+        if rg is not None and rng.random() < 0.5:
+            kw["range"] = rg
+    return {"k": "name", "s": name}, kw, name
+
+
+def _method_call(rng, d, names_per_axis, lo, hi, uniform):
+    """bins / keywords of a facade call with one method per axis; uniform: ONE bins argument for all axes, its keywords given
+    once or as per-axis lists; otherwise a per-axis list of bins with per-axis lists of keywords (None where an axis takes none)"""
+    drawn = [_method_item(rng, names_per_axis[a], lo, hi, tight=(d == 4)) for a in range(d)]
+    items, kws, mtags = [x[0] for x in drawn], [x[1] for x in drawn], [x[2] for x in drawn]
+    once = uniform and rng.random() < 0.5
+    if uniform:
+        items = [items[0]] * d
+        first = kws[0]
+        kws = [dict(first) if once else {k: kw.get(k, first[k]) for k in first} for kw in kws]
+    for kw in kws:
+        if kw.get("adaptive") and kw.get("includes_right_edge"):     # exclude each other
+            del kw["adaptive"]
+    kwj = {}
+    for k in sorted({k for kw in kws for k in kw}):
+        vals = [kw.get(k) for kw in kws]
+        if all(v == vals[0] for v in vals) and (once or rng.random() < 0.3):
+            kwj[k] = enc(vals[0])
+        else:
+            kwj[k] = enc(vals)
+    bins = items[0] if uniform else {"axes": items}
+    return {"bins": bins, "kw": kwj}, ["method:" + t for t in sorted(set(mtags))]
+
+
+def _cols_distinct(rows):
+    """at least two rows without NaN, and in every column all values well apart (quantile edges of values one ulp apart
+    coincide after interpolation: such a call is legitimately refused)"""
+    full = [[Fraction(v) for v in r] for r in rows if all(v is not None for v in r)]
+    if len(full) < 2:
+        return False
+    for c in zip(*full):
+        c = sorted(c)
+        if any(b - a < Fraction(1, 64) for a, b in zip(c, c[1:])):
+            return False
+    return True
+
+
+def _confident(names_per_axis, rows):
+    full = [r for r in rows if all(v is not None for v in r)]
+    if len(full) < 2 or any(len(set(c)) < 2 for c in zip(*full)):
+        return False
+    cols_distinct = _cols_distinct(rows)
+    return all(m in METHODS_CONFIDENT or m in ("int", "edges") or (m == "quantile" and cols_distinct) for m in names_per_axis)
+
+
+def _grid_rows(rng, d, names_per_axis, positive, integer, n, tie_share):
+    """columns of equal extent on a dyadic grid; a coarse grid when bins of width one are asked for ('integer')"""
+    step = 1.0 if (integer or "integer" in names_per_axis) else rng.choice([0.25, 0.5, 1.0, 2.0])
+    if "integer" in names_per_axis:
+        m = rng.choice([3, 4, 6])
+    else:
+        m = rng.choice([x for x in (4, 8, 16, 32, 48) if x + 1 >= n] if rng.random() < 0.8 else [4, 8])
+    lo = float(rng.choice([1, 2, 4])) if positive else float(rng.choice([0, 0, -2, -5, 1]))
+    hi = lo + m * step
+    ties = rng.random() < tie_share or m + 1 < n
+    cols = [_column(rng, n, lo, step, m, ties=ties) for _ in range(d)]
+    return [[c[i] for c in cols] for i in range(n)], lo, hi, step, m
+
+
+def gen_per_axis_args(rng):
+    """per-axis lists of arguments (method names, bin_count, bin_width, range, q, right-edge flags) on equal data extents"""
+    d = rng.choice([2, 2, 3, 3, 4])
+    positive = rng.random() < 0.4
+    pool = ["numpy", "numpy", "quantile", "quantile", "fixed_width", "fixed_width", "integer", "pretty", "human", "int", "int",
+            "edges", "edges", "blocks", "scott", "freedman", "knuth"] + (["exponential", "exponential"] if positive else [])
+    if d <= 3:
+        pool += ["default", "sturges", "rice", "sqrt", "doane"]
+    uniform = rng.random() < 0.45
+    if uniform:
+        names_per_axis = [rng.choice([p for p in pool if p != "edges"])] * d
+    else:
+        names_per_axis = [rng.choice(pool) for _ in range(d)]
+    n = rng.choice([2, 3, 5, 8, 13, 20])
+    rows, lo, hi, step, m = _grid_rows(rng, d, names_per_axis, positive, False, n, 0.25)
+    for _ in range(rng.choice([0, 0, 1, 2])):          # a row one ulp inside the common maximum
+        a = rng.randrange(d)
+        rows.append([gen1.nxt(hi, False) if i == a else lo + rng.randint(0, m) * step for i in range(d)])
+    if rng.random() < 0.25:
+        a = rng.randrange(d)
+        rows.append([gen1.NAN if i == a else lo + step for i in range(d)])
+    rng.shuffle(rows)
+    call, mtags = _method_call(rng, d, names_per_axis, lo, hi, uniform)
+    entry, names = _names_entry(rng, d)
+    tags = ["stream:per_axis_args", "d:%d" % d, "uniform_call" if uniform else "per_axis_bins"] + mtags
+    op = {"op": "construct", "out": 0, "d": d, "axes": [None] * d, "call": call, "rows": gennd.enc_rows(rows), "names": names,
+          "entry": entry}
+    _weights(rng, len(rows), op, tags)
+    if rng.random() < 0.1:
+        op["dropna"] = False
+    op["expect"] = "ok" if _confident(names_per_axis, rows) else "any"
+    return {"kind": "histn", "ops": [op], "tags": tags}
+
+
+def _layout(rng, integer_ok, f32_ok):
+    kind = rng.choice(LAYOUTS_COLUMN_CONTIGUOUS * 3 + LAYOUTS_OTHER)
+    lay = {"k": kind}
+    r = rng.random()
+    if integer_ok and r < 0.3:
+        lay["dtype"] = rng.choice(["int64", "int64", "int32", "int16"])
+    elif f32_ok and r < 0.4:
+        lay["dtype"] = "float32"
+    if rng.random() < 0.2:
+        lay["ro"] = True
+    return lay
+
+
+def gen_layout(rng):
+    """row-wise (n, d) input in every memory layout x every binning method name (or explicit bins) x weights x dropna"""
+    d = rng.choice([2, 2, 3, 3, 4])
+    tags = ["stream:layout", "d:%d" % d]
+    mode = rng.choice(["method", "method", "method", "explicit", "same_edges"])
+    if mode == "method":
+        positive = rng.random() < 0.3
+        integer = rng.random() < 0.45
+        pool = (["quantile"] * 8 + METHODS_ANY_DATA + (METHODS_POSITIVE * 2 if positive else []))
+        if d == 4:
+            pool = [p for p in pool if p not in ("default", "sturges", "rice", "sqrt", "doane")]
+        name = rng.choice(pool)
+        r = rng.random()
+        if r < 0.5:
+            names_per_axis, uniform = [name] * d, True
+        elif r < 0.75:           # the method on ONE axis of a per-axis list only
+            names_per_axis = [rng.choice(["int", "edges"]) for _ in range(d)]
+            names_per_axis[rng.randrange(d)] = name
+            uniform = False
+        else:
+            names_per_axis = [rng.choice([name, name, "int", "edges", "numpy", "quantile"]) for _ in range(d)]
+            if name not in names_per_axis:
+                names_per_axis[rng.randrange(d)] = name
+            uniform = False
+        n = rng.choice([2, 3, 5, 8, 13, 20, 30])
+        rows, lo, hi, step, m = _grid_rows(rng, d, names_per_axis, positive, integer, n, 0.15)
+        has_nan = False
+        if not integer and rng.random() < 0.2:
+            a = rng.randrange(d)
+            rows.append([gen1.NAN if i == a else lo + step for i in range(d)])
+            rng.shuffle(rows)
+            has_nan = True
+        call, mtags = _method_call(rng, d, names_per_axis, lo, hi, uniform)
+        tags += mtags + ["bins:method"]
+        op = {"op": "construct", "out": 0, "d": d, "axes": [None] * d, "call": call, "rows": gennd.enc_rows(rows)}
+        op["expect"] = "ok" if _confident(names_per_axis, rows) else "any"
+        lay = _layout(rng, integer_ok=integer and not has_nan, f32_ok=True)
+    else:
+        if mode == "same_edges":
+            sub = gen_same_edges(rng)
+        else:
+            axs = [gennd.axis_binning(rng, maxbins=4 if d < 4 else 3) for _ in range(d)]
+            rows = rows_on_edges(rng, [a[1] for a in axs], rng.choice([1, 2, 4, 8, 15, 30]))
+            sub = {"ops": [{"op": "construct", "out": 0, "d": d, "axes": [a[0] for a in axs], "rows": gennd.enc_rows(rows),
+                            "expect": "ok"}], "tags": []}
+        op = sub["ops"][0]
+        d = op["d"]
+        tags = ["stream:layout", "d:%d" % d, "bins:" + mode] + [t for t in sub["tags"] if t.startswith(("form:", "flags_differ", "on_last_edge"))]
+        lay = _layout(rng, integer_ok=False, f32_ok=False)
+    op["layout"] = lay
+    tags.append("layout:" + lay["k"] + ("/" + lay["dtype"] if "dtype" in lay else "") + ("/ro" if lay.get("ro") else ""))
+    op["entry"], op["names"] = _names_entry(rng, d)
+    nrows = len(op["rows"])
+    _weights(rng, nrows, op, tags)
+    if op["weights"] is not None:
+        op["wlayout"] = {"k": rng.choice(["C", "C", "step", "rev"])}
+        if rng.random() < 0.25:
+            op["wlayout"]["ro"] = True
+    has_nan = any(x is None for r in op["rows"] for x in r)
+    if rng.random() < (0.35 if not has_nan else 0.1):
+        op["dropna"] = False
+        tags.append("dropna:off")
+    return {"kind": "histn", "ops": [op], "tags": tags}
+
+
+# ------------------------------------------------------------------------------------------------ exhaustive small scopes
+def case_same_edges(d, flags, form):
+    """d axes over the SAME bins [0, 1), [1, 2) declaring `flags`; rows on / one ulp beside the last edge of each axis in turn"""
+    pairs = [[0.0, 1.0], [1.0, 2.0]]
+    if form in ("objs_fixed", "fixed_kw"):
+        axes = [gen1.fixed_json(1.0, 0, 2, 0.0, ire=f) for f in flags]
+    else:
+        axes = [gen1.binning_json(pairs, ire=f, form="numpy_obj" if form == "objs_numpy" else "static_obj") for f in flags]
+    rows = [[0.5] * d, [2.0] * d, [1.5] * d, [2.5] + [0.5] * (d - 1)]
+    for a in range(d):
+        rows.append([2.0 if i == a else 0.5 for i in range(d)])
+        rows.append([gen1.nxt(2.0, False) if i == a else 1.5 for i in range(d)])
+        rows.append([gen1.nxt(2.0, True) if i == a else 0.5 for i in range(d)])
+        rows.append([2.0 if i != a else 1.0 for i in range(d)])
+    op = {"op": "construct", "out": 0, "d": d, "axes": axes, "rows": gennd.enc_rows(rows), "names": None, "entry": "h",
+          "weights": None, "wkind": None, "expect": "ok"}
+    item = {"k": "edges", "e": ["0", "1", "2"]}
+    if form == "kw_single":
+        op["call"] = {"bins": item, "kw": {"includes_right_edge": enc(list(flags))}}
+    elif form == "kw_list":
+        op["call"] = {"bins": {"axes": [item] * d}, "kw": {"includes_right_edge": enc(list(flags))}}
+    elif form == "fixed_kw":
+        op["call"] = {"bins": {"k": "name", "s": "fixed_width"},
+                      "kw": {"bin_width": enc(1.0), "range": enc((0.0, 2.0)), "includes_right_edge": enc(list(flags))}}
+    return {"kind": "histn", "ops": [op], "tags": ["exhaustive:flags", "form:" + form]}
+
+
+EXH_COLUMNS = [[1, 9, 4, 7, 2, 8, 5, 3], [6, 2, 9, 1, 8, 3, 7, 4], [9, 5, 1, 3, 6, 2, 4, 8]]     # distinct values, extent 1..9 each
+EXH_LAYOUTS = ([{"k": k} for k in LAYOUTS_COLUMN_CONTIGUOUS + LAYOUTS_OTHER]
+               + [{"k": "F", "ro": True}, {"k": "T", "ro": True}, {"k": "F", "dtype": "int64"}, {"k": "T", "dtype": "int32"},
+                  {"k": "Frows", "dtype": "int16"}, {"k": "F", "dtype": "float32"}, {"k": "C", "dtype": "int64"}])
+EXH_KW = {"quantile": [{"bin_count": 2}, {"q": (0.0, 0.5, 1.0)}, {"bin_count": 3, "qrange": (0.0, 0.75)}], "numpy": [{"bin_count": 3}],
+          "fixed_width": [{"bin_width": 4.0}], "exponential": [{"bin_count": 2}], "pretty": [{"bin_count": 3}], "human": [{"bin_count": 3}]}
+
+
+def case_layout(lay, name, kw, one_axis, weighted):
+    """the same eight rows (d = 3) in the given layout, binned by the named method on all axes / on the middle axis only"""
+    rows = [[float(c[i]) for c in EXH_COLUMNS] for i in range(8)]
+    if one_axis:
+        bins = {"axes": [{"k": "int", "n": 2}, {"k": "name", "s": name}, {"k": "edges", "e": ["1", "5", "9"]}]}
+        kwj = {k: enc([None, v, None]) for k, v in kw.items()}
+    else:
+        bins = {"k": "name", "s": name}
+        kwj = {k: enc(v) for k, v in kw.items()}
+    op = {"op": "construct", "out": 0, "d": 3, "axes": [None] * 3, "call": {"bins": bins, "kw": kwj}, "rows": gennd.enc_rows(rows),
+          "names": None, "entry": "h", "layout": dict(lay), "weights": None, "wkind": None,
+          "expect": "ok" if (name in METHODS_CONFIDENT or name == "quantile") else "any"}
+    if weighted:
+        op["weights"] = [rs(x) for x in [1, 0.5, 2, 1.5, 0.25, 3, 1, 2.5]]
+        op["wkind"] = "float64"
+        op["wlayout"] = {"k": "step"}
+    return {"kind": "histn", "ops": [op], "tags": ["exhaustive:layout", "method:" + name]}
 
 
 class C02(HistNProp):
     ID = "C02"
-    N_QUICK = 400
-    N_THOROUGH = 12000
+    N_QUICK = 640
+    N_THOROUGH = 19000
     RULE = ("h / h2 / h3 calls with d = 2..4 explicit per-axis binnings (static right-closed, static right-open, fixed-width "
             "right-open, gapped, tiny gaps, 1-4 bins per axis, different counts per axis; as edges / pairs / binning objects) x "
             "rows (n = 0..30; coordinates on / one ulp beside every edge, in gaps, outside, NaN) x weights (absent, int, dyadic, "
-            "all-equal non-unit, zeros, signed with every cell total >= 0) x row-wise, list, column-wise (h2, h3 lists) entry x axis names. non-trivial = at least one "
-            "row inside a cell and one missed; distinct = op-list hash")
+            "all-equal non-unit, zeros, signed with every cell total >= 0) x row-wise, list, column-wise (h2, h3 lists) entry x axis names; "
+            "stream same_edges: axes with element-wise identical bins of one class whose right-edge declaration / adaptivity "
+            "differ per axis (objects, includes_right_edge=[..] with arrays of edges, 'fixed_width' with range and per-axis flag "
+            "lists), rows exactly on / one ulp beside the last edge of each axis in turn; stream per_axis_args: per-axis lists "
+            "of method names, ints, edges and keywords (bin_count, bin_width, range, q, qrange, includes_right_edge, adaptive) on "
+            "columns of equal extent; stream layout: row-wise input C / F-ordered / transposed / strided / reversed / read-only / "
+            "integer / float32 x every binning method name x weights (strided, read-only) x dropna; every case: the arrays handed "
+            "over are bit-for-bit unchanged afterwards. non-trivial = at least one row inside a cell and one missed; distinct = op-list hash")
     FIELDS = {"bins", "shape", "freq", "err2", "missed", "total", "dtype", "names", "ndim"}
 
     def fields_for(self, case):
         return self.FIELDS
 
+    # ------------------------------------------------------------------------------------------------ implementation / model
+    def run_impl(self, case):
+        log: list = []
+        outs = [run_construct(op, log) for op in case["ops"]]
+        return {"outs": outs, "log": log}
+
+    def model_case(self, case, io):
+        """the model knows explicit binnings only. A call that names methods is given to the model with the bins and the
+        right-edge declarations the returned histogram reports (which bins a method chooses is C07's subject), except on the
+        axes whose bins the specification fixes; a refused call of that kind has no model counterpart."""
+        op = case["ops"][0]
+        if op.get("call") is None:
+            return case
+        out = io["outs"][0]
+        if out["ret"] != "ok" or not out["regs"] or out["regs"][0] is None:
+            return None
+        snap = out["regs"][0]
+        axes = []
+        for a in range(op["d"]):
+            spec = op["axes"][a]
+            if spec is not None:
+                axes.append(dict(spec, adaptive=False) if spec["t"] == "fixed" else spec)
+                continue
+            if not snap["bins"][a]:
+                return None
+            axes.append({"t": "static", "bins": snap["bins"][a], "ire": snap["_ire"][a], "form": "static_obj"})
+        c = copy.deepcopy(case)
+        c["ops"][0]["axes"] = axes
+        del c["ops"][0]["call"]
+        return c
+
+    # ------------------------------------------------------------------------------------------------------------ generator
     def gen_case(self, rng, k, tier):
+        r = rng.random()
+        t = 0.0
+        for on, share, gen in ((ENABLE_SAME_EDGES, SHARE_SAME_EDGES, gen_same_edges),
+                               (ENABLE_PER_AXIS_ARGS, SHARE_PER_AXIS_ARGS, gen_per_axis_args),
+                               (ENABLE_LAYOUT, SHARE_LAYOUT, gen_layout)):
+            t += share
+            if on and t - share <= r < t:
+                return gen(rng)
+        c = self.gen_classic(rng)
+        c["tags"].append("stream:classic")
+        return c
+
+    def gen_classic(self, rng):
         d = rng.choice([2, 2, 2, 3, 3, 4])
         axes = [gennd.axis_binning(rng, maxbins=4 if d < 4 else 3) for _ in range(d)]
         n = rng.choice([0, 1, 2, 4, 8, 15, 30])
@@ -67,6 +766,35 @@ class C02(HistNProp):
             tags.append("malformed:wshape")
         return {"kind": "histn", "ops": [op], "tags": tags}
 
+    def exhaustive_cases(self, tier):
+        """(1) every vector of right-edge declarations over identical edges (d = 2, 3) x every way of stating it; (2) every
+        memory layout of the row-wise input x every binning method name (thorough: also on one axis only, and weighted)"""
+        out = []
+        if ENABLE_SAME_EDGES:
+            for d in (2, 3):
+                for flags in itertools.product([True, False], repeat=d):
+                    for form in ("objs_static", "objs_numpy", "objs_fixed", "kw_list", "kw_single", "fixed_kw"):
+                        out.append(case_same_edges(d, flags, form))
+        if ENABLE_LAYOUT:
+            for lay in EXH_LAYOUTS:
+                for name in METHODS_ANY_DATA + METHODS_POSITIVE:
+                    for kw in EXH_KW.get(name, [{}]):
+                        for one_axis in ([False, True] if tier == "thorough" else [False]):
+                            for weighted in ([False, True] if tier == "thorough" else [False]):
+                                out.append(case_layout(lay, name, kw, one_axis, weighted))
+        return out
+
+    # ------------------------------------------------------------------------------------------- shrinking / neighbourhood
+    @staticmethod
+    def _recheck(case):
+        """what the generator vouched for must still be true of a reduced case: a call naming data-dependent methods needs at
+        least two rows without NaN and two different values in every column, else its refusal is legitimate"""
+        op = case["ops"][0]
+        if op.get("call") is not None and any(x is None for x in op["axes"]) and op.get("expect") == "ok":
+            if not _cols_distinct(op["rows"]):
+                op["expect"] = "any"
+        return case
+
     def shrink_candidates(self, case):
         op = case["ops"][0]
         for j in range(len(op["rows"])):
@@ -74,20 +802,100 @@ class C02(HistNProp):
             del c["ops"][0]["rows"][j]
             if c["ops"][0]["weights"] is not None and len(c["ops"][0]["weights"]) > j:
                 del c["ops"][0]["weights"][j]
+            yield self._recheck(c)
+        if op.get("weights") is not None and len(op["weights"]) == len(op["rows"]):
+            c = copy.deepcopy(case)
+            c["ops"][0]["weights"] = None; c["ops"][0]["wkind"] = None; c["ops"][0].pop("wlayout", None)
             yield c
+        for key in ("wlayout", "layout"):
+            lay = op.get(key)
+            if lay and lay.get("ro"):
+                c = copy.deepcopy(case); del c["ops"][0][key]["ro"]; yield c
+            if lay and "dtype" in lay:
+                c = copy.deepcopy(case); del c["ops"][0][key]["dtype"]; yield c
+            if lay and lay.get("k", "C") not in ("C", "F"):
+                for k2 in (["C", "F"] if key == "layout" else ["C"]):
+                    c = copy.deepcopy(case); c["ops"][0][key]["k"] = k2; yield c
 
+    def neighbours(self, case):
+        """around a case on which model and implementation disagree: the same call with each axis' right-edge declaration
+        flipped, with rows put exactly on / beside the last edge of each axis in turn, with all axes sharing the bins of axis
+        0, and in the column-contiguous layouts"""
+        op = case["ops"][0]
+        d = int(op["d"]) if "d" in op else len(op["axes"])
+        specs = op.get("axes") or []
+        if op.get("call") is None and all(s is not None for s in specs):
+            pairs = [[(float(l), float(r)) for l, r in _spec_pairs(s)] for s in specs]
+            extra = []
+            for a in range(d):
+                last = pairs[a][-1][1]
+                for x in (last, gen1.nxt(last, False), gen1.nxt(last, True)):
+                    extra.append([x if i == a else (pairs[i][0][0] + pairs[i][0][1]) / 2 for i in range(d)])
+            for variant in range(2 * d + 2):
+                c = copy.deepcopy(case)
+                o = c["ops"][0]
+                o["rows"] = o["rows"] + gennd.enc_rows(extra)
+                if o.get("weights") is not None:
+                    o["weights"] = o["weights"] + ["1"] * len(extra)
+                if variant < d:
+                    o["axes"][variant]["ire"] = not _spec_ire(o["axes"][variant])
+                    if o["axes"][variant].get("adaptive"):
+                        o["axes"][variant]["adaptive"] = False
+                elif variant < 2 * d:
+                    a = variant - d
+                    for i in range(d):              # every axis gets the bins of axis a; the declarations alternate
+                        o["axes"][i] = dict(copy.deepcopy(specs[a]), ire=(i % 2 == 0), adaptive=False)
+                        if o["axes"][i]["t"] == "static":
+                            o["axes"][i]["form"] = "static_obj"
+                    rows2 = []
+                    for i in range(d):
+                        last = pairs[a][-1][1]
+                        rows2.append([last if j == i else (pairs[a][0][0] + pairs[a][0][1]) / 2 for j in range(d)])
+                    o["rows"] = gennd.enc_rows(rows2) + [r for r in o["rows"] if all(v is not None for v in r)][:4]
+                    if o.get("weights") is not None:
+                        o["weights"] = ["1"] * len(o["rows"])
+                    o["dropna"] = True
+                elif variant == 2 * d:
+                    o["layout"] = {"k": "F"}
+                else:
+                    o["layout"] = {"k": "T"}
+                    o["entry"] = "h"
+                yield c
+        else:
+            for k2 in LAYOUTS_COLUMN_CONTIGUOUS + ["C"]:
+                c = copy.deepcopy(case)
+                c["ops"][0]["layout"] = {"k": k2}
+                c["ops"][0]["entry"] = "h"
+                yield c
+
+    # --------------------------------------------------------------------------------------------------------------- oracle
     def oracle(self, case, io):
         op = case["ops"][0]
         out = io["outs"][0]
+        fails = self._oracle_counts(op, out, io)
+        inp = out.get("_input")
+        if inp is not None:
+            # the rows the caller passed are the rows counted -- and still the caller's rows afterwards
+            if not inp["data_intact"]:
+                fails.append("input_modified: the data array handed to the facade was modified by the call: rows afterwards "
+                             f"{inp.get('rows_after')}, rows passed {op['rows']}")
+            if not inp["weights_intact"]:
+                fails.append("weights_modified: the weights array handed to the facade was modified by the call: afterwards "
+                             f"{inp.get('weights_after')}, passed {op['weights']}")
+        return fails
+
+    def _oracle_counts(self, op, out, io):
         fails = []
         rows, ws = op["rows"], op["weights"]
+        specs = op.get("axes") or [None] * int(op.get("d", 0))
         has_nan = any(v is None for r in rows for v in r)
         must_refuse = (ws is not None and len(ws) != len(rows)) or (has_nan and not op.get("dropna", True))
         if not must_refuse and ws is not None and any(Fraction(w) < 0 for w in ws):
             # signed weights: a cell whose total would be negative is refused by physt (C18's clause, not this property's)
             try:
-                ax0 = [([(Fraction(l), Fraction(r)) for l, r in b["bins"]], b.get("ire", True)) for b in op["axes"] if b["t"] == "static"]
-                if len(ax0) == len(op["axes"]):
+                ax0 = [([(Fraction(l), Fraction(r)) for l, r in b["bins"]], b.get("ire", True)) for b in specs
+                       if b is not None and b["t"] == "static"]
+                if len(ax0) == len(specs):
                     cells0, _ = gennd.brute_cells(ax0, rows, ws)
                     if any(f < 0 for f, _ in cells0.values()):
                         return []
@@ -96,18 +904,29 @@ class C02(HistNProp):
             except Exception:
                 return []
         if out["ret"] == "REFUSED":
-            if not must_refuse:
+            if not must_refuse and op.get("expect", "ok") == "ok":
                 fails.append("refused_valid: a valid call was refused: " + "; ".join(io["log"][:2]))
             return fails
         if must_refuse:
             return ["accepted_invalid: invalid weights / NaN specification accepted"]
         snap = out["regs"][0]
+        declared = snap.get("_ire")
+        if len(snap["bins"]) != len(specs):
+            return [f"ndim: {len(snap['bins'])} axes reported, {len(specs)} columns given"]
         axes = []
-        for b, rep in zip(op["axes"], snap["bins"]):
+        for a, (b, rep) in enumerate(zip(specs, snap["bins"])):
             pairs = [(Fraction(l), Fraction(r)) for l, r in rep]
-            if b["t"] == "static" and [(Fraction(l), Fraction(r)) for l, r in b["bins"]] != pairs:
-                fails.append("bins_changed: reported bins differ from the specification")
-            axes.append((pairs, b.get("ire", True) if b["t"] == "static" else b.get("ire", False)))
+            ire = declared[a] if declared is not None else _spec_ire(b)
+            if b is not None:
+                if b["t"] == "static" and _spec_pairs(b) != pairs:
+                    fails.append("bins_changed: reported bins differ from the specification")
+                if (b["t"] == "fixed" and op.get("call") is not None and Fraction(b["w"]).denominator <= 8
+                        and Fraction(b["shift"]).denominator <= 16 and _spec_pairs(b) != pairs):
+                    # (dyadic widths: the edges (tmin + i) * w are exact in floating point too)
+                    fails.append(f"bins_changed: axis {a}: reported bins {rep} differ from the requested width / range")
+                if ire != _spec_ire(b):
+                    fails.append(f"flag_changed: axis {a} declares includes_right_edge={ire}, the specification says {_spec_ire(b)}")
+            axes.append((pairs, ire))
         shape = [len(a[0]) for a in axes]
         if snap["shape"] != shape:
             return fails + [f"shape: {snap['shape']} != {shape}"]
@@ -115,7 +934,7 @@ class C02(HistNProp):
         for pos, idx in enumerate(gennd.unravel(shape)):
             f, e = cells.get(idx, (Fraction(0), Fraction(0)))
             if Fraction(snap["freq"][pos]) != f:
-                fails.append(f"content: cell {idx} holds {snap['freq'][pos]}, the rows give {f}")
+                fails.append(f"content: cell {idx} holds {snap['freq'][pos]}, the rows give {f}" + self._where(axes, idx))
                 break
             if Fraction(snap["err2"][pos]) != e:
                 fails.append(f"errors2: cell {idx} has {snap['err2'][pos]}, sum of squared weights is {e}")
@@ -128,6 +947,15 @@ class C02(HistNProp):
         if snap["_freq_dtype"] != snap["dtype"] or snap["_err2_dtype"] != snap["dtype"]:
             fails.append("dtype: reported dtype differs from the arrays'")
         return fails
+
+    @staticmethod
+    def _where(axes, idx):
+        parts = []
+        for a, i in enumerate(idx):
+            (l, r), (pairs, ire) = axes[a][0][i], axes[a]
+            closed = ire and i == len(pairs) - 1
+            parts.append(f"axis {a}: [{l}, {r}{']' if closed else ')'}")
+        return " (" + "; ".join(parts) + "; last bins closed on the axes declaring includes_right_edge = " + str([x[1] for x in axes]) + ")"
 
     def nontrivial(self, case, io):
         out = io["outs"][0]
